@@ -271,8 +271,8 @@ def _snap_diff(a, b):
 # --------------------------------------------------------------------------
 # less usual but legal feature names: upper-case spellings of the virtual names (x, y, z, t, idx), names with digits,
 # blanks, one character, prefixes of one another
-MARKER_NAMES = ["m", "Y", "Z", "X", "Idx", "T", "M2", "mark 1", "#mark", "m"]
-TESTED_NAMES = [["f0", "f1", "f2"], ["T", "Z", "X"], ["temp", "t2", "T"], ["v", "v1", "v12"], ["Y", "y2", "Idx"]]
+MARKER_NAMES = ["m", "Y", "Z", "X", "Idx", "T", "M2", "mark 1", "#mark", "m", "xy", "zt"]
+TESTED_NAMES = [["f0", "f1", "f2"], ["T", "Z", "X"], ["temp", "t2", "T"], ["v", "v1", "v12"], ["Y", "y2", "Idx"], ["yz", "xyz", "dx"]]
 
 
 def _run_split(case, ctx):
@@ -465,8 +465,8 @@ def _run_seg(case, ctx):
     nontrivial = (0 in expected) and (1 in expected)
 
     tr = gen.make_track(_points(n), _times(n))
-    pick = (n + k + sum(expected)) % 7
-    names = list(TESTED_NAMES[pick % len(TESTED_NAMES)][:k]) if pick < 5 else ["f%d" % f for f in range(k)]
+    pick = (n + k + sum(expected)) % 8
+    names = list(TESTED_NAMES[pick % len(TESTED_NAMES)][:k]) if pick < 6 else ["f%d" % f for f in range(k)]
     MK = MARKER_NAMES[(n + 2 * k + sum(expected)) % len(MARKER_NAMES)]
     if MK in names:
         MK = "m"
